@@ -42,7 +42,21 @@ def _p(tier, base, **kw):
 def main_cases(draw, tier, base=None):
     p = _p(tier, base or BFUT)
     f, vs = draw(F.formulas(p))
-    shape = draw(st.sampled_from(['plain', 'sibling', 'sibling', 'nested', 'nested']))
+    shape = draw(st.sampled_from(['plain', 'sibling', 'sibling', 'nested', 'nested', 'term-future']))
+    if shape == 'term-future':
+        # a predicate with look-ahead: a bounded future operator (window from 0, so always finite) or one next inside a term
+        v1, v2 = ('var', draw(st.sampled_from(vs))), ('var', draw(st.sampled_from(vs)))
+        b = draw(st.integers(0, 3))
+        fut = draw(st.sampled_from([('tun', 'eventually', 0, b, v1), ('tun', 'always', 0, b, v1), ('un', 'next', v1), ('un', 's_next', v1),
+                                    ('tun', 'eventually', 0, b, ('un', 'abs', v1))]))
+        other = draw(st.sampled_from([v2, ('tun', 'always', 0, draw(st.integers(0, 2)), v2), ('const', 1.0), ('un', 'abs', v2)]))
+        if fut[0] == 'un' and other[0] == 'tun':
+            other = v2
+        term = draw(st.sampled_from([('bin', '-', fut, other), ('bin', '-', other, fut), ('un', 'abs', ('bin', '-', fut, other)), ('bin', '+', fut, other), fut]))
+        g = ('pred', draw(st.sampled_from(['<=', '>=', '<', '>'])), term, ('const', draw(st.sampled_from([0.0, 1.0, 2.0]))))
+        k = draw(st.integers(0, 3))
+        f = [g, ('bin', draw(st.sampled_from(['and', 'or', 'implies'])), g, f), ('tun', draw(st.sampled_from(['always', 'eventually'])), 0, draw(st.integers(0, 2)), g),
+             ('bin', draw(st.sampled_from(['and', 'or'])), ('pred', '>=', v2, ('const', 1.0)), g)][k]
     if shape == 'sibling':
         # a binary node whose children have different horizons (one side delayed by the pastifier)
         g, _ = draw(F.formulas(p.copy(max_depth=3), variables=vs))
